@@ -99,3 +99,18 @@ Definition add_grant (fixed : bool) (a : acct) (gs : Z) (glock gvest : list peri
 
 (** the event-sum view of an account's lockup schedule *)
 Definition unlocked_ev (a : acct) (t : Z) : Z := ev (a_start a) (a_lock a) t.
+
+(** The same merge with the account end computed as
+    max(OLD account end, end of the merged VESTING periods) — a shape that looks
+    harmless ("a grant can only move the end further away") but forgets the end of
+    the merged LOCKUP periods.  Kept beside [add_grant] only to state what goes
+    wrong with it (Props/C11.v, [C11_merge_end_rule_refuted]); [add_grant] above is
+    the code of /repo. *)
+Definition add_grant_oldend (a : acct) (gs : Z) (glock gvest : list period) (coins : Z)
+  : option acct :=
+  let '(ls, _, lp) := disjunct (a_start a) gs (a_lock a) glock in
+  let '(_, ve, vp) := disjunct (a_start a) gs (a_vest a) gvest in
+  Some (mkacct ls (Z.max (a_end a) ve) (a_orig a + coins) lp vp).
+
+(** GetLockedUpCoins: OriginalVesting - GetUnlockedCoins *)
+Definition lockedup_at (a : acct) (t : Z) : Z := a_orig a - unlocked_at a t.
